@@ -945,6 +945,27 @@ M('C19', 'HelicalLattice.enlarge: _set_Ls only when Ls changed (round-3 seed b)'
   "        if self.Ls != self.regular_lattice.Ls:\n            self._set_Ls(self.regular_lattice.Ls)\n        order_reg = self.regular_lattice.order",
   'GEOM-derived-refresh')
 
+M('C20', 'result stored after task_done (round-3 seed a)', TH,
+  """                    res = fct(*args, **kwargs)
+                    if return_dict is not None:
+                        return_dict[return_key] = res
+                finally:
+                    self.tasks.task_done()
+""", """                    res = fct(*args, **kwargs)
+                finally:
+                    self.tasks.task_done()
+                if return_dict is not None:
+                    return_dict[return_key] = res
+""", 'SYNC-publish-before-done')
+M('C20', 'delete forgets a pending preload (round-3 seed b)', CA,
+  "    def delete(self, key):\n        self.worker.put_task(self.disk_storage.delete, key)",
+  "    def delete(self, key):\n        self._waiting_for_load.discard(key)\n        self._loaded.pop(key, None)\n        self.worker.put_task(self.disk_storage.delete, key)",
+  'TS-forget-pending')
+M('C20', 'delete waits for pending tasks before forgetting (equivalent discipline)', CA,
+  "    def delete(self, key):\n        self.worker.put_task(self.disk_storage.delete, key)",
+  "    def delete(self, key):\n        if key in self._waiting_for_load:\n            self.worker.join_tasks()\n            self._waiting_for_load.discard(key)\n            self._loaded.pop(key, None)\n        self.worker.put_task(self.disk_storage.delete, key)",
+  None, expect='silent')
+
 # ---------------------------------------------------------------- C16 / C19
 M('C16', 'GMRES restart: relative residual norm used for normalisation (round-3 seed b)', KRY,
   """        self.total_error.append([npc.norm(self.rs[-1]) / self.b_norm])
